@@ -256,6 +256,38 @@ NOISE_AFTER_HS = [("ut-request", frame(bytes([20, 1]) + ben({"msg_type": 0, "pie
                   ("ut-msgtype-9", frame(bytes([20, 1]) + ben({"msg_type": 9, "piece": 5})))]
 
 
+def client_name(rng):
+    """a BEP 10 client name `v`: any valid UTF-8 text, of any length; multi-byte characters lie across every small byte
+    offset and across the powers of two (added after seeded change C11-14: a name cut at byte 64 inside a character)"""
+    k = rng.choice([0, 1, 2, 7, 15, 16, 31, 32, 33, 63, 64, 65, 66, 127, 128, 129, 255, 256, 257, 511, 512, 1023, 1024, rng.randrange(2, 3000)])
+    ch = rng.choice(["é", "µ", "→", "漢", "😀", "\u0301", "\U0010ffff"])
+    back = rng.randrange(0, len(ch.encode()))            # the character starts `back` bytes before offset k
+    return "x" * max(0, k - back) + ch + rng.choice(["", "y", "y" * rng.randrange(1, 90), ch * rng.randrange(1, 40)])
+
+
+def rich_handshake_extra(ctx, rng):
+    """optional fields of the extension handshake of an honest peer (BEP 10 and common extensions), at the edges of what
+    the fields may hold; keys imdl does not know must be ignored whatever their type"""
+    e = {}
+    if rng.random() < 0.7:
+        e["v"] = client_name(rng); ctx.count("hs_v_len_%s" % ("le64" if len(e["v"].encode()) <= 64 else "gt64"))
+    if rng.random() < 0.4:
+        e["p"] = rng.choice([0, 1, 80, 6881, 32767, 32768, 65535])
+    if rng.random() < 0.4:
+        e["reqq"] = rng.choice([0, 1, 250, 2 ** 31 - 1, 2 ** 31, 2 ** 32 - 1, 2 ** 32, 2 ** 63 - 1])
+    if rng.random() < 0.3:
+        e["yourip"] = bytes(rng.getrandbits(8) for _ in range(rng.choice([4, 16])))
+    if rng.random() < 0.3:
+        e["ipv4"] = bytes(rng.getrandbits(8) for _ in range(4))
+    if rng.random() < 0.3:
+        e["ipv6"] = bytes(rng.getrandbits(8) for _ in range(16))
+    if rng.random() < 0.3:
+        e[rng.choice(["complete_ago", "upload_only", "e", "ut_comment", "zz_unknown", "A"])] = rng.choice(
+            [0, -1, 2 ** 63 - 1, -2 ** 63, b"", b"\xff\xfe", [1, b"x", []], {"a": {"b": [0]}}, "text"])
+    ctx.count("hs_rich")
+    return e
+
+
 def honest_case(ctx, rng, size=None, noise_p=0.3, cut="random", reactive=False, ut_id=None, info=None, label="honest"):
     info = info if info is not None else make_info(rng, size=size)
     target = hashlib.sha1(info).digest()
@@ -264,6 +296,8 @@ def honest_case(ctx, rng, size=None, noise_p=0.3, cut="random", reactive=False, 
     if rng.random() < 0.5:
         extra.update(rng.choice([{"v": "µTorrent 3.5.5"}, {"v": "py 1", "p": 6881, "reqq": 250}, {"yourip": b"\x7f\0\0\1"},
                                  {"complete_ago": -1, "upload_only": 0, "e": 0}, {"ipv4": b"\1\2\3\4", "ipv6": b"\0" * 16}]))
+    if rng.random() < 0.45:
+        extra.update(rich_handshake_extra(ctx, rng))
     m_extra = rng.choice([None, {"ut_pex": 1}, {"lt_donthave": 7, "ut_holepunch": 4, "ut_pex": ut_id % 255 + 1}])
     reserved = bytes(rng.getrandbits(8) for _ in range(5)) + bytes([0x10 | (rng.getrandbits(8) if rng.random() < 0.5 else 0)]) + \
         bytes(rng.getrandbits(8) for _ in range(2))
